@@ -20,6 +20,12 @@ def uninterpreted(f):
     return f
 
 
+def axiom(f):
+    """an assumed contract of a Python builtin, stated like a lemma but not proved (listed in every evidence file
+    that uses it; cross-checked natively on generated inputs)"""
+    return f
+
+
 def lemma(f):
     """marks a lemma procedure: requires/ensures/decreases + a proof body, verified by the engine"""
     return f
@@ -270,3 +276,41 @@ def bor(x, y) -> Int:
 
 def bor__facts(x, y, r):
     return implies(x >= 0 and y >= 0, r >= x and r >= y and r <= x + y)
+
+
+@lemma
+def pow2_add(m: Int, n: Int):
+    requires(m >= 0 and n >= 0)
+    ensures(pow2(m + n) == pow2(m) * pow2(n))
+    decreases(n)
+    if n > 0:
+        pow2_add(m, n - 1)
+
+
+@lemma
+def cat_bound(a: Int, m: Int, b: Int, n: Int):
+    """concatenating an m-bit and an n-bit string gives an (m+n)-bit string"""
+    requires(m >= 0 and n >= 0 and 0 <= a and a < pow2(m) and 0 <= b and b < pow2(n))
+    ensures(0 <= a * pow2(n) + b and a * pow2(n) + b < pow2(m + n))
+    pow2_add(m, n)
+    mul_mono(a + 1, pow2(m), pow2(n))
+
+
+@lemma
+def mul_mono(x: Int, y: Int, p: Int):
+    requires(x <= y and p >= 0)
+    ensures(x * p <= y * p)
+    decreases(p)
+    if p > 0:
+        mul_mono(x, y, p - 1)
+
+
+@lemma
+def be_val_bound(s: IntList):
+    requires(typed_bytes(s) or all_bytes(s))
+    ensures(0 <= be_val(s) and be_val(s) < pow2(8 * len(s)))
+    decreases(len(s))
+    if len(s) > 0:
+        be_val_bound(s[:len(s) - 1])
+        pow2_add(8 * (len(s) - 1), 8)
+        all_bytes(s)
